@@ -1098,3 +1098,177 @@ def run(ctx):
     _run_main_r5(ctx)
     extras_r5(ctx)
     ctx.flush()
+
+
+# ---- round-9 lessons ----------------------------------------------------------------------------------------------------------------------
+# (a) the quotient that decides the integration step -- 20*dt/T_min, or dt/(dt/min_dt_ratio) -- a NEAR MISS of a whole number (relative 1e-15 ..
+#     1e-4 above and below k: periods typed to 5..9 digits such as 1/15 s = 0.0666666, T_min = 20*dt/k*(1 -+ eps), min_dt_ratio = k*(1 +- eps)):
+#     the step rule (step <= target, whole factor = ceil of the quotient) and "spectra == pseudo spectra at that step" are the existing clauses;
+# (b) every module-level function that takes a signal OBJECT and an explicit period list (energy spectra, cumulative spectra, asi/vsi) is a
+#     read-only query: afterwards the object's response_times and its lazily read s_d/s_v/s_a are those of a fresh object with the periods the
+#     harness CONFIGURED (the harness remembers them; it does not re-read them from the object).
+
+def _r9_near_cases(rng, quick):
+    cases = []
+    # directed: typed decimal periods next to 20*dt/k
+    for dt, k, digits in [(0.01, 3, 7), (0.01, 7, 7), (0.02, 6, 6), (0.005, 3, 8)] + \
+            [(rng.choice([0.01, 0.02, 0.005, 0.05, 0.004, 0.0078125]), rng.randint(2, 15), rng.randint(5, 9)) for _ in range(10 if quick else 80)]:
+        exact = 20 * dt / k
+        for T in sorted({float(f'%.{digits}f' % exact), float(f'%.{digits}f' % exact) - 10.0 ** -digits, float(f'%.{digits}f' % exact) + 10.0 ** -digits}):
+            cases.append((f'typed to {digits} digits', dt, T, rng.choice([r for r in (4, 8, 16, 32) if r > k])))
+    # T_min = 20*dt/k * (1 -+ eps): the quotient is k*(1 +- eps)
+    eps_list = [2.3e-16, 1e-15, 1e-14, 1e-12, 1e-10, 1e-9, 1e-8, 1e-7, 1e-6, 3e-6, 9e-6, 3e-5, 1e-4]
+    grid = [(0.01, 3, 1e-6, -1), (0.01, 3, 1e-6, 1), (0.02, 7, 1e-8, -1), (0.005, 2, 1e-10, -1), (0.01, 5, 9e-6, -1)]
+    for _ in range(40 if quick else 400):
+        grid.append((rng.choice([0.01, 0.02, 0.005, 0.05, 0.004, 0.0078125, 0.25]), rng.randint(2, 12), rng.choice(eps_list), rng.choice([-1, 1])))
+    for dt, k, eps, sign in grid:
+        T = 20 * dt / k * (1 + sign * eps)
+        cases.append(('Tmin = 20 dt / k (1 %s %g)' % ('+' if sign > 0 else '-', eps), dt, T, rng.choice([r for r in (4, 8, 16, 32) if r > k])))
+    # the ratio-limited branch: dt / (dt / min_dt_ratio) next to a whole number (whole ratios that are not powers of two, ratios k (1 +- eps))
+    for _ in range(25 if quick else 250):
+        dt = rng.choice([0.01, 0.02, 0.005, 0.05, 0.004, 0.3])
+        k = rng.randint(2, 12)
+        ratio = k if rng.random() < 0.3 else k * (1 + rng.choice([-1, 1]) * rng.choice(eps_list))
+        cases.append(('min_dt_ratio = k (1 +- eps)', dt, dt * rng.choice([0.5, 1.0, 20.0 / (k + 2)]), ratio))
+    return cases
+
+
+def r9_near_integer(ctx):
+    import eqsig
+    import eqsig.single
+    from eqsig import sdof
+    rng = ctx.rng
+    real_interp = eqsig.single.interp_array_to_approx_dt
+    seen = []
+
+    def spy(values, dt, target_dt=0.01, even=True):
+        out = real_interp(values, dt, target_dt, even=even)
+        seen.append((float(target_dt), even, len(out[0]), float(out[1])))
+        return out
+    eqsig.single.interp_array_to_approx_dt = spy
+    try:
+        with core.no_probe():
+            for ci, (kind, dt, tmin, ratio) in enumerate(_r9_near_cases(rng, ctx.tier == 'quick')):
+                n = rng.randint(12, 60)
+                a = gen.noise_record(rng, n) * np.hanning(n + 2)[1:-1]
+                rt = [tmin] + sorted(tmin * rng.uniform(1.5, 30) for _ in range(rng.randint(0, 2)))
+                if rng.random() < 0.25:
+                    rt = [0.0] + rt
+                xi = rng.choice([0.05, -1, 0.0, 0.2])
+                inputs = {'values': a, 'dt': dt, 'response_times': rt, 'min_dt_ratio': ratio, 'xi': xi, 'family': kind}
+                ctx.hist('near-whole step quotient/' + kind.split(' (')[0])
+                ctx.count_case(('r9near', a.tobytes(), dt, tuple(rt), ratio, xi), True,
+                               sample={'fn': 'AccSignal.gen_response_spectrum (near-whole step quotient)', 'dt': dt, 'response_times': rt, 'min_dt_ratio': ratio} if ci < 2 else None)
+                asig = ctx.aged(eqsig.AccSignal, a, dt, response_times=np.array(rt)) if rng.random() < 0.3 else eqsig.AccSignal(a, dt, response_times=np.array(rt))
+                del seen[:]
+                res = call_impl(lambda: (asig.gen_response_spectrum(xi=xi, min_dt_ratio=ratio), (np.array(asig.s_d), np.array(asig.s_v), np.array(asig.s_a)))[1])
+                if res[0] != 'ok':
+                    ctx.oracle('C03.d gen_response_spectrum returns for response_times with a non-zero first or second entry', False, inputs, detail=res)
+                    continue
+                target = max(tmin / 20, dt / ratio)
+                q = fr(dt) / fr(target)
+                ctx.oracle('C03.d the record is interpolated (even=False, towards max(Tmin/20, dt/min_dt_ratio)) iff that target is < dt',
+                           (len(seen) == 1 and seen[0][:2] == (target, False)) if target < dt else not seen, inputs, detail={'interp calls': list(seen), 'target_dt': target})
+                if target < dt and len(seen) == 1:
+                    dti = seen[0][3]
+                    kf = fr(dt) / fr(dti)
+                    k = round(kf)
+                    ctx.hist('near-whole step quotient: quotient %s the whole number' % ('above' if q > round(q) else 'below' if q < round(q) else 'on'))
+                    ctx.oracle('C03.d integration step dt\' <= max(Tmin/20, dt/min_dt_ratio) with dt/dt\' an integer',
+                               dti <= target * (1 + 1e-12) and abs(kf - k) <= Fraction(1, 10 ** 9) and k >= 1 and seen[0][2] == k * n, inputs,
+                               detail={'dt_interp': dti, 'target': target, 'dt/target': float(q), 'dt/dt_interp': float(kf), 'len': seen[0][2]})
+                    # the whole factor is the ceiling of the quotient (either neighbour when the quotient is within 1e-12 of a whole number)
+                    ks = {math.ceil(q), math.ceil(q * (1 - Fraction(1, 10 ** 12)))}
+                    ctx.oracle('C03.d the sub-division is the smallest whole one that satisfies the step rule (ceil(dt / target))', k in ks, inputs,
+                               detail={'factor': k, 'dt/target': float(q)})
+                    ks.add(k)
+                else:
+                    ks = {1}
+                xe = 0.05 if xi == -1 else xi
+                ok = False
+                for k in sorted(ks):
+                    vi = a if k == 1 else np.interp(np.arange(k * n) / k, np.arange(n), a)
+                    ok = ok or _x2_eq3(res[1], sdof.pseudo_response_spectra(vi, dt / k, np.array(rt), xe))
+                ctx.oracle('C03.d AccSignal s_d/s_v/s_a == pseudo_response_spectra applied to the record at that step (exactly)', ok, inputs,
+                           detail={'sub-divisions tried': sorted(ks), 's_d': res[1][0]})
+    finally:
+        eqsig.single.interp_array_to_approx_dt = real_interp
+    ctx.flush()
+
+
+def r9_queries_keep_periods(ctx):
+    import eqsig
+    import eqsig.im
+    from eqsig import sdof
+    rng = ctx.rng
+    queries = [('sdof.calc_input_energy_spectrum', lambda s, p, xi: sdof.calc_input_energy_spectrum(s, periods=p, xi=xi)),
+               ('sdof.calc_input_energy_spectrum(series=True)', lambda s, p, xi: sdof.calc_input_energy_spectrum(s, p, xi, series=True)),
+               ('sdof.calc_resp_uke_spectrum', lambda s, p, xi: sdof.calc_resp_uke_spectrum(s, periods=p, xi=xi)),
+               ('im.cumulative_response_spectra', lambda s, p, xi: eqsig.im.cumulative_response_spectra(s, 'arias_intensity', periods=p, xi=xi)),
+               ('im.calc_asi', lambda s, p, xi: eqsig.im.calc_asi(s, xi=xi, periods=p)),
+               ('im.calc_vsi', lambda s, p, xi: eqsig.im.calc_vsi(s, xi=xi, periods=p)),
+               ('sdof.pseudo_response_spectra(asig.values)', lambda s, p, xi: sdof.pseudo_response_spectra(s.values, s.dt, p, xi)),
+               ('sdof.response_series(asig.values)', lambda s, p, xi: sdof.response_series(s.values, s.dt, p, xi))]
+    reps = 3 if ctx.tier == 'quick' else 20
+    for it in range(reps * len(queries)):
+        qname, q = queries[it % len(queries)]
+        n = rng.randint(30, 200)
+        dt = rng.choice([0.01, 0.02, 0.005])
+        a = gen.noise_record(rng, n) * np.hanning(n)
+        own = np.array(sorted(rng.uniform(0.05, 3.0) for _ in range(rng.randint(2, 5))))
+        other = sorted(rng.uniform(0.05, 3.0) for _ in range(rng.choice([len(own), rng.randint(2, 6)])))
+        other = rng.choice([list, tuple, np.array])(other) if 'asi' not in qname and 'vsi' not in qname and 'asig.values' not in qname else np.array(other)
+        how = rng.choice(['periods at construction', 'response_times setter', 'gen_response_spectrum(response_times=) before', 'default periods'])
+        if how == 'default periods':
+            o = eqsig.AccSignal(a, dt)
+            own = np.array(o.response_times)
+        elif how == 'periods at construction':
+            o = eqsig.AccSignal(a, dt, response_times=own)
+        elif how == 'response_times setter':
+            o = eqsig.AccSignal(a, dt)
+            o.response_times = own
+        else:
+            o = eqsig.AccSignal(a, dt)
+            o.gen_response_spectrum(response_times=own)
+        read_before = rng.random() < 0.4
+        if read_before:
+            _ = o.s_a
+        xi = rng.choice([0.05, None, 0.1]) if 'sdof.calc' in qname or 'cumulative' in qname else rng.choice([0.05, 0.1])
+        r = call_impl(q, o, other, xi)
+        if rng.random() < 0.3:
+            call_impl(queries[rng.randrange(len(queries))][1], o, other, 0.05)
+        fresh = eqsig.AccSignal(a, dt, response_times=np.array(own))
+        inputs = {'values': a, 'dt': dt, 'configured response_times': own, 'configured through': how, 'spectra read before the query': read_before,
+                  'query': qname, 'query periods': other, 'query xi': xi}
+        ctx.hist('read-only query with explicit periods/' + qname)
+        ctx.count_case(('r9query', a.tobytes(), dt, tuple(own), qname, tuple(np.asarray(other))), True)
+        if r[0] != 'ok':
+            ctx.oracle('C03.e energy spectra return on the domain of the response series', False, inputs, detail=r)
+            continue
+        got_rt = call_impl(lambda: np.array(o.response_times, dtype=float))
+        ctx.oracle('C03.d a module-level query with an explicit period list leaves the response_times of the signal it is given unchanged',
+                   got_rt[0] == 'ok' and got_rt[1].shape == own.shape and np.array_equal(got_rt[1], own), inputs, detail={'response_times afterwards': got_rt[1]})
+        got = call_impl(lambda: (np.array(o.s_d), np.array(o.s_v), np.array(o.s_a)))
+        want = (np.array(fresh.s_d), np.array(fresh.s_v), np.array(fresh.s_a))
+        ok = got[0] == 'ok' and _x2_eq3(got[1], want)
+        ctx.oracle('C03.d s_d/s_v/s_a read after a module-level query with other periods are the spectra for the signal\'s own period list (one entry per period, '
+                   '== a fresh signal with the configured periods)', ok, inputs, detail=None if ok else {'s_d': got[1][0] if got[0] == 'ok' else got, 'fresh s_d': want[0]})
+        if got[0] == 'ok' and len(got[1][0]) == len(own):
+            w = 2 * np.pi / own
+            sd, sv, sa = got[1]
+            ctx.oracle('C03.b pseudo S_v == (2 pi / T) * S_d', bool(np.all(np.abs(sv - w * sd) <= 1e-12 * np.maximum(w * sd, 1e-300))), inputs)
+    ctx.flush()
+
+
+def extras_r9(ctx):
+    r9_near_integer(ctx)
+    r9_queries_keep_periods(ctx)
+
+
+_run_main_r9 = run
+
+
+def run(ctx):
+    _run_main_r9(ctx)
+    extras_r9(ctx)
+    ctx.flush()
